@@ -3,6 +3,8 @@
 package sim
 
 import (
+	"bytes"
+	"io"
 	"bufio"
 	"context"
 	"encoding/base64"
@@ -479,3 +481,5 @@ func Main() {
 		}
 	}
 }
+
+func bytesReader(b []byte) io.Reader { return bytes.NewReader(b) }
